@@ -1,4 +1,5 @@
 import EdpVerif.Impl.Control
+import EdpVerif.Spec.Control
 /-
 Helper lemmas for C08 (table-generic facts about `Control.parse / toTerm / intoTerm`).
 -/
@@ -173,8 +174,188 @@ theorem evalFields_ok (els : List Term) :
     obtain ⟨vs, hvs⟩ := ih (fun q hq => h q (List.mem_cons_of_mem _ hq))
     exact ⟨(g, v) :: vs, by simp [evalFields, hv, hvs]⟩
 
-theorem asI64_small {n : Nat} (h : n < 2 ^ 63) : asI64 n = (n : Int) := by
-  simp [asI64, h]
+/-! ### unlink ids -/
+
+theorem u8_pos {b : UInt8} (h : b ≠ 0) : 1 ≤ b.toNat := by
+  rcases Nat.eq_zero_or_pos b.toNat with h0 | h0
+  · exact absurd (UInt8.toNat_inj.mp (by simpa using h0)) h
+  · exact h0
+
+theorem sigDigits_zero_magVal : ∀ d : Bytes, sigDigits d = 0 → magVal d = 0 := by
+  intro d
+  induction d with
+  | nil => intro _; rfl
+  | cons b r ih =>
+    intro h
+    simp only [sigDigits] at h
+    split at h
+    · rename_i hr
+      split at h
+      · rename_i hb; subst hb; simp [magVal, ih hr]
+      · simp at h
+    · simp at h
+
+theorem magVal_take_sig : ∀ d : Bytes, magVal (d.take (sigDigits d)) = magVal d := by
+  intro d
+  induction d with
+  | nil => rfl
+  | cons b r ih =>
+    simp only [sigDigits]
+    split
+    · rename_i hr
+      split
+      · rename_i hb; subst hb; simp [magVal, sigDigits_zero_magVal r hr]
+      · simp [magVal, sigDigits_zero_magVal r hr]
+    · simp [magVal, ih]
+
+theorem sig_le_length : ∀ d : Bytes, sigDigits d ≤ d.length := by
+  intro d
+  induction d with
+  | nil => simp [sigDigits]
+  | cons b r ih =>
+    simp only [sigDigits, List.length_cons]
+    split
+    · split <;> omega
+    · omega
+
+theorem magVal_lt : ∀ d : Bytes, magVal d < 256 ^ d.length := by
+  intro d
+  induction d with
+  | nil => simp [magVal]
+  | cons b r ih =>
+    simp only [magVal, List.length_cons, Nat.pow_succ]
+    have := b.toNat_lt
+    omega
+
+theorem magVal_ge_of_sig : ∀ d : Bytes, 0 < sigDigits d → 256 ^ (sigDigits d - 1) ≤ magVal d := by
+  intro d
+  induction d with
+  | nil => intro h; simp [sigDigits] at h
+  | cons b r ih =>
+    intro h
+    simp only [sigDigits] at h ⊢
+    split
+    · rename_i hr
+      split
+      · rename_i hb; simp [hr, hb] at h
+      · rename_i hb
+        have := u8_pos hb
+        simp [magVal]; omega
+    · rename_i hr
+      have hpos : 0 < sigDigits r := by omega
+      have := ih hpos
+      have e : sigDigits r + 1 - 1 = (sigDigits r - 1) + 1 := by omega
+      rw [e, Nat.pow_succ]
+      simp only [magVal]
+      omega
+
+theorem leN_length : ∀ (k n : Nat), (leN k n).length = k := by
+  intro k
+  induction k with
+  | zero => intro n; rfl
+  | succ k ih => intro n; simp [leN, ih]
+
+theorem magVal_leN : ∀ (k n : Nat), magVal (leN k n) = n % 256 ^ k := by
+  intro k
+  induction k with
+  | zero => intro n; simp [leN, magVal, Nat.mod_one]
+  | succ k ih =>
+    intro n
+    simp only [leN, magVal, ih]
+    have : (UInt8.ofNat (n % 256)).toNat = n % 256 := by simp [UInt8.toNat_ofNat']
+    rw [this, Nat.pow_succ, Nat.mul_comm (256 ^ k) 256, Nat.mod_mul]
+
+theorem magVal_lt_of_sig {d : Bytes} (h : sigDigits d ≤ 8) : magVal d < 2 ^ 64 := by
+  rw [← magVal_take_sig d]
+  have h1 := magVal_lt (d.take (sigDigits d))
+  have h2 : (d.take (sigDigits d)).length ≤ 8 := by simp; omega
+  have h3 : 256 ^ (d.take (sigDigits d)).length ≤ 256 ^ 8 := Nat.pow_le_pow_right (by omega) h2
+  have h4 : (256 : Nat) ^ 8 = 2 ^ 64 := by decide
+  omega
+
+/-- what `unlink_id_from_term` returns is the integer the element stands for -/
+theorem unlinkId_intOf {e : Term} {n : Nat} (h : unlinkIdFromTerm e = some n) : intOf e = some (n : Int) := by
+  cases e <;> simp only [unlinkIdFromTerm] at h <;> try (simp at h; done)
+  · rename_i i
+    split at h
+    · simp at h
+    · simp at h; subst h; simp only [intOf]; congr 1; omega
+  · rename_i neg d
+    split at h
+    · simp at h
+    · split at h
+      · simp at h
+      · rename_i h1 h2
+        simp at h
+        rw [magVal_take_sig] at h
+        subst h
+        simp only [intOf, bigVal]
+        cases neg with
+        | false => simp
+        | true =>
+          have : sigDigits d = 0 := by
+            rcases Nat.eq_zero_or_pos (sigDigits d) with hz | hp
+            · exact hz
+            · exact absurd ⟨hp, rfl⟩ h1
+          simp [sigDigits_zero_magVal d this]
+
+/-- it accepts every element that stands for an integer `0 ≤ v < 2^64` -/
+theorem unlinkId_total {e : Term} {v : Int} (hi : intOf e = some v) (h0 : 0 ≤ v) (h64 : v < 2 ^ 64) :
+    ∃ n, unlinkIdFromTerm e = some n := by
+  cases e <;> simp only [intOf] at hi <;> try (simp at hi; done)
+  · rename_i i
+    simp at hi; subst hi
+    have : ¬ i < 0 := by omega
+    exact ⟨i.toNat, by simp [unlinkIdFromTerm, this]⟩
+  · rename_i neg d
+    simp at hi
+    simp only [unlinkIdFromTerm]
+    have hge : 0 < sigDigits d → 1 ≤ magVal d := by
+      intro hp
+      have := magVal_ge_of_sig d hp
+      have : 1 ≤ 256 ^ (sigDigits d - 1) := Nat.pow_pos (by decide)
+      omega
+    have h1 : ¬ (0 < sigDigits d ∧ neg = true) := by
+      intro ⟨hp, hn⟩
+      subst hn
+      have := hge hp
+      simp only [bigVal, if_true] at hi
+      omega
+    have h2 : ¬ 8 < sigDigits d := by
+      intro h8
+      have hp : 0 < sigDigits d := by omega
+      have hm := magVal_ge_of_sig d hp
+      have hpow : 256 ^ 8 ≤ 256 ^ (sigDigits d - 1) := Nat.pow_le_pow_right (by omega) (by omega)
+      have h4 : (256 : Nat) ^ 8 = 2 ^ 64 := by decide
+      cases neg with
+      | true => exact h1 ⟨hp, rfl⟩
+      | false =>
+        simp only [bigVal, Bool.false_eq_true, if_false] at hi
+        omega
+    simp [h1, h2]
+
+theorem intOf_toTerm {n : Nat} (h : n < 2 ^ 64) : intOf (unlinkIdToTerm n) = some (n : Int) := by
+  simp only [unlinkIdToTerm]
+  split
+  · rfl
+  · have h4 : (256 : Nat) ^ 8 = 2 ^ 64 := by decide
+    simp only [intOf, bigVal, Bool.false_eq_true, if_false, magVal_leN, h4, Nat.mod_eq_of_lt h]
+
+theorem intOf_den {e : Term} {v : Int} (h : intOf e = some v) : e.den = .int v := by
+  cases e <;> simp only [intOf] at h <;> try (simp at h; done)
+  · simp at h; subst h; simp [Term.den]
+  · simp at h; subst h; simp [Term.den]
+
+/-- reading back what the serialiser wrote, possibly re-represented by the wire -/
+theorem unlinkId_back {w : Term → Term} (hw : Transparent w) {n : Nat} (h : n < 2 ^ 64) :
+    unlinkIdFromTerm (w (unlinkIdToTerm n)) = some n := by
+  have h1 := hw.ints _ _ (intOf_toTerm h)
+  obtain ⟨m, hm⟩ := unlinkId_total h1 (by omega) (by omega)
+  have h2 := unlinkId_intOf hm
+  rw [h1] at h2
+  simp at h2
+  rw [hm]; congr 1; omega
+
 
 /-- a source that satisfies the id guard and indexes inside the tuple evaluates -/
 theorem evalSrc_ok {els : List Term} {s : Src} (hi : s.idx < els.length) (hg : srcIdOk els s = true) :
@@ -185,26 +366,25 @@ theorem evalSrc_ok {els : List Term} {s : Src} (hi : s.idx < els.length) (hg : s
     simp [evalSrc, List.getElem?_eq_getElem hi]
   | uid i =>
     simp only [Src.idx] at hi
-    simp only [srcIdOk] at hg
-    simp only [evalSrc]
-    split at hg
-    · rename_i v hv
-      simp at hg
-      simp only [hv]
-      have : ¬ v < 0 := by omega
-      simp [this]
-    · simp at hg
+    simp only [srcIdOk, List.getElem?_eq_getElem hi] at hg
+    simp only [evalSrc, List.getElem?_eq_getElem hi]
+    cases hv : intOf els[i] with
+    | none => simp [hv] at hg
+    | some v =>
+      simp [hv] at hg
+      obtain ⟨n, hn⟩ := unlinkId_total hv hg.1 hg.2
+      exact ⟨.uid n, by simp [hn]⟩
 
 theorem evalOuts_of_match (els : List Term) (flds : List (String × Src)) (fs : List (String × FVal))
     (he : evalFields els flds = .ok fs) (hg : ∀ p ∈ flds, srcIdOk els p.2 = true) :
     ∀ (outs : List Out) (k : Nat), matchOuts flds outs k = true → k + outs.length = els.length →
-      evalOuts fs outs = some (els.drop k) := by
+      ∃ ts, evalOuts fs outs = some ts ∧ Term.denL ts = Term.denL (els.drop k) := by
   intro outs
   induction outs with
   | nil =>
     intro k _ hk
     simp at hk
-    simp [evalOuts, hk]
+    exact ⟨[], rfl, by simp [hk]⟩
   | cons o os ih =>
     intro k hm hk
     have hlt : k < els.length := by simp at hk; omega
@@ -216,41 +396,42 @@ theorem evalOuts_of_match (els : List Term) (flds : List (String × Src)) (fs : 
       simp only [evalSrc, List.getElem?_eq_getElem hlt] at hv
       simp at hv
       subst hv
-      have := ih (k + 1) hm.2 (by simp at hk ⊢; omega)
+      obtain ⟨ts, hts, hden⟩ := ih (k + 1) hm.2 (by simp at hk ⊢; omega)
+      refine ⟨els[k] :: ts, by simp only [evalOuts, evalOut, hl, hts], ?_⟩
       rw [hdrop]
-      simp only [evalOuts, evalOut, hl, this]
+      simp only [Term.denL, hden]
     | uid f =>
       simp only [matchOuts, Bool.and_eq_true, decide_eq_true_eq] at hm
       obtain ⟨v, hv, hl⟩ := evalFields_lookup els flds fs f _ he hm.1
       have hgk := hg (f, .uid k) (lookup_mem _ _ _ hm.1)
       simp only [srcIdOk, List.getElem?_eq_getElem hlt] at hgk
       simp only [evalSrc, List.getElem?_eq_getElem hlt] at hv
-      have := ih (k + 1) hm.2 (by simp at hk ⊢; omega)
-      split at hgk
-      · rename_i x hx
-        simp at hx hgk
-        rw [hx] at hv
-        have hneg : ¬ x < 0 := by omega
-        simp [hneg] at hv
+      obtain ⟨ts, hts, hden⟩ := ih (k + 1) hm.2 (by simp at hk ⊢; omega)
+      cases hn : unlinkIdFromTerm els[k] with
+      | none => simp [hn] at hv
+      | some n =>
+        simp [hn] at hv
         subst hv
-        have hsm : x.toNat < 2 ^ 63 := by omega
-        have hx' : ((x.toNat : Nat) : Int) = x := by omega
-        rw [hdrop, hx]
-        simp only [evalOuts, evalOut, hl, this, asI64_small hsm, hx']
-      · simp at hgk
+        have hi := unlinkId_intOf hn
+        simp [hi] at hgk
+        have hn64 : n < 2 ^ 64 := by omega
+        refine ⟨unlinkIdToTerm n :: ts, by simp only [evalOuts, evalOut, hl, hts], ?_⟩
+        rw [hdrop]
+        simp only [Term.denL, hden, intOf_den (intOf_toTerm hn64), intOf_den hi]
 
-/-- `from_term` then `to_term` / `into_term` give back the tuple (under the id guard) -/
+/-- `from_term` then `to_term` / `into_term` give back a tuple that denotes the same value (under the id guard):
+the same head, and element by element the same denotation -/
 theorem roundtrip {tbl : Table} (h : TableOK tbl) (i : Int) (rest : List Term) (h0 : 0 ≤ i) (h255 : i ≤ 255)
     (hg : idGuard tbl (.tuple (.int i :: rest)) = true) :
-    ∃ m, parse tbl (.tuple (.int i :: rest)) = .ok m ∧ toTerm tbl m = some (.tuple (.int i :: rest)) ∧
-      intoTerm tbl m = some (.tuple (.int i :: rest)) := by
+    ∃ m u, parse tbl (.tuple (.int i :: rest)) = .ok m ∧ toTerm tbl m = some u ∧ intoTerm tbl m = some u ∧
+      u.den = (Term.tuple (.int i :: rest)).den := by
   have ok := okParts h
   have hi : ((i.toNat : Nat) : Int) = i := by omega
   simp only [idGuard] at hg
   simp only [parse, h0, h255, and_self, if_true]
   cases hsel : selectArm tbl (fromU8 tbl i.toNat) (rest.length + 1) with
   | none =>
-    refine ⟨_, rfl, ?_, ?_⟩ <;> simp [toTerm, intoTerm, serialise, hi]
+    refine ⟨_, .tuple (.int i :: rest), rfl, ?_, ?_, rfl⟩ <;> simp [toTerm, intoTerm, serialise, hi]
   | some a =>
     simp only [hsel, List.all_eq_true] at hg
     obtain ⟨hmem, hty, har⟩ := selectArm_some hsel
@@ -267,12 +448,14 @@ theorem roundtrip {tbl : Table} (h : TableOK tbl) (i : Int) (rest : List Term) (
       have hlen' : (Term.int i :: rest).length = a.arity := by simp [har]
       obtain ⟨fs, hfs⟩ := evalFields_ok (.int i :: rest) a.fields (fun p hp =>
         evalSrc_ok (by rw [hlen']; exact hidx p hp) (hg p hp))
-      have houts := evalOuts_of_match (.int i :: rest) a.fields fs hfs hg b.outs 1 hmo (by rw [hlen']; omega)
-      simp only [List.drop_succ_cons, List.drop_zero] at houts
-      have hto : toTerm tbl (.known a.variant fs) = some (.tuple (.int i :: rest)) := by
+      obtain ⟨ts, houts, hden⟩ :=
+        evalOuts_of_match (.int i :: rest) a.fields fs hfs hg b.outs 1 hmo (by rw [hlen']; omega)
+      simp only [List.drop_succ_cons, List.drop_zero] at hden
+      have hto : toTerm tbl (.known a.variant fs) = some (.tuple (.int i :: ts)) := by
         simp [toTerm, serialise, hb, hdisc, houts, hi]
-      refine ⟨.known a.variant fs, by simp [hfs], hto, ?_⟩
-      rw [into_eq_to h]; exact hto
+      refine ⟨.known a.variant fs, .tuple (.int i :: ts), by simp [hfs], hto, ?_, ?_⟩
+      · rw [into_eq_to h]; exact hto
+      · simp only [Term.den, Term.denL, hden]
 
 /-- anything that is not a tuple headed by `Integer 0..255` is rejected with an error, for every table -/
 theorem rejects (tbl : Table) (t : Term) (h : tagged t = false) : parse tbl t = .error .err := by
@@ -296,9 +479,7 @@ theorem evalSrc_no_panic {els : List Term} {s : Src} (hi : s.idx < els.length) :
   | uid i =>
     simp only [Src.idx] at hi
     simp only [evalSrc, List.getElem?_eq_getElem hi]
-    generalize els[i] = x
-    cases x <;> simp
-    split <;> simp
+    cases unlinkIdFromTerm els[i] <;> simp
 
 theorem evalFields_no_panic (els : List Term) :
     ∀ (flds : List (String × Src)), (∀ p ∈ flds, p.2.idx < els.length) → evalFields els flds ≠ .error .panic := by
@@ -437,8 +618,7 @@ theorem evalFields_pointwise (w : Term → Term) (els : List Term) (fs : List (S
 /-- every structured message serialises, and what comes back from a transparent wire parses to the same variant
 with the same (wire-mapped) value in every field -/
 theorem serialise_wire_parse {tbl : Table} (h : TableOK tbl) (w : Term → Term) (hw : Transparent w)
-    (v : String) (fs : List (String × FVal)) (hm : wellTyped tbl (.known v fs) = true)
-    (hid : IdsSurvive w (.known v fs)) :
+    (v : String) (fs : List (String × FVal)) (hm : wellTyped tbl (.known v fs) = true) :
     ∃ t m', toTerm tbl (.known v fs) = some t ∧ intoTerm tbl (.known v fs) = some t ∧
       parse tbl (w t) = .ok m' ∧ Msg.Same m' (Msg.mapTerms w (.known v fs)) := by
   have ok := okParts h
@@ -533,12 +713,24 @@ theorem serialise_wire_parse {tbl : Table} (h : TableOK tbl) (w : Term → Term)
                   | uid n =>
                     simp [hl] at hte
                     subst hte
-                    obtain ⟨hn, hwn⟩ := hid f n hl
+                    -- the id is below 2^64: its declaration is `u64`
+                    have hn : n < 2 ^ 64 := by
+                      have hmem := houts _ (List.mem_of_getElem? hko)
+                      simp only [List.mem_map] at hmem
+                      obtain ⟨p, hp', hpo⟩ := hmem
+                      have hfo := hall p hp'
+                      obtain ⟨g, u⟩ := p
+                      cases u with
+                      | false => simp [outOfDecl] at hpo
+                      | true =>
+                        simp [outOfDecl] at hpo
+                        subst hpo
+                        simp [fieldOk, hl] at hfo
+                        exact hfo
                     refine ⟨_, rfl, ?_⟩
                     have hk : k = (k - 1) + 1 := by omega
                     rw [hk]
-                    have hneg : ¬ ((n : Nat) : Int) < 0 := by omega
-                    simp [evalSrc, List.getElem?_cons_succ, List.getElem?_map, htk, FVal.map, asI64_small hn, hwn, hneg]
+                    simp [evalSrc, List.getElem?_cons_succ, List.getElem?_map, htk, FVal.map, unlinkId_back hw hn]
             obtain ⟨fs', hfs', hsome, hnone⟩ := evalFields_pointwise w _ fs a.fields hpw
             have hparse : parse tbl (w (.tuple (.int (d : Int) :: ts))) = .ok (.known a.variant fs') := by
               rw [hwt]
@@ -561,5 +753,51 @@ theorem serialise_wire_parse {tbl : Table} (h : TableOK tbl) (w : Term → Term)
                 obtain ⟨u, hu⟩ := lookup_some_of_isSome h1
                 have h2 := hcov (f, u) (lookup_mem _ _ _ hu)
                 simp [hla] at h2
+
+/-! ### the protocol's notion of an admissible control tuple implies the guard -/
+
+theorem idGuard_of_shape {tbl : Table} (h : TableOK tbl)
+    (hids : ∀ a ∈ tbl.fromArms, Spec.idsAtSpec tbl a = true) (t : Term) (hs : Spec.shape t = .control) :
+    tagged t = true ∧ idGuard tbl t = true := by
+  have ok := okParts h
+  unfold Spec.shape at hs
+  split at hs
+  · rename_i i rest
+    split at hs
+    · rename_i hc
+      refine ⟨by simp [tagged, hc], ?_⟩
+      simp only [idGuard]
+      cases hsel : selectArm tbl (fromU8 tbl i.toNat) (rest.length + 1) with
+      | none => rfl
+      | some a =>
+        simp only [List.all_eq_true]
+        intro p hp
+        obtain ⟨hmem, hty, har⟩ := selectArm_some hsel
+        have hdisc := ok.tryInv (i.toNat, a.ty) (fromU8_some hty)
+        have hat := hids a hmem
+        simp only [Spec.idsAtSpec, List.all_eq_true] at hat
+        have hp' := hat p hp
+        obtain ⟨f, src⟩ := p
+        cases src with
+        | elem k => rfl
+        | uid k =>
+          simp only [hdisc, decide_eq_true_eq] at hp'
+          rw [har] at hp'
+          simp only [hp'] at hs
+          simp only [srcIdOk]
+          split at hs
+          · rename_i e he
+            simp only [he]
+            simp only [Spec.intOf] at hs
+            split at hs
+            · rename_i v hv
+              simp only [hv]
+              split at hs
+              · rename_i hr; simp only [decide_eq_true_eq]; exact hr
+              · cases hs
+            · cases hs
+          · cases hs
+    · cases hs
+  · cases hs
 
 end Edp.Control
